@@ -7,17 +7,19 @@ Extends `infix_roundtrip_left_partial` (C16Left.lean) by POSTFIX levels (arity 1
 parentheses.
 
 PROVED HERE (`infix_roundtrip_general_partial`), for ALL tables in `ClassG` (operand `Word(cs)`; `lpar`/`rpar` each
-suppressed or kept; each level a LEFT- or RIGHT-associative binary, a prefix, a postfix or a RIGHT-associative ternary operator without parse action;
+suppressed or kept; each level a LEFT- or RIGHT-associative binary, a prefix, a postfix or a LEFT- or RIGHT-associative ternary operator without parse action;
 spellings non-empty, not starting with a blank/operand character, pairwise prefix-incomparable; any number of levels,
 any order) and ALL trees of ALL sizes in the table's normal form `WFG`: `parse_string(render t e ++ blanks,
 parse_all=True)` of the model parser on `infixGrammar t` returns exactly `[nest t e]`; a postfix chain `a op op` is ONE
 flat group `[a, op, op]` (`p_nest`), a kept parenthesis gives the group `[lpar?, inner, rpar?]`.
 `ClassTL ⊆ ClassG`, `WFL ⊆ WFG`, so the statement subsumes `infix_roundtrip_left_partial` and `infix_roundtrip_partial`.
 
-RIGHT-associative TERNARY levels (`a op1 b op2 c`, one group of five) are in the class as well (`goal_ternR`; the second
-operator non-empty, not starting with a blank/operand character, prefix-incomparable with every first operator).
+TERNARY levels of either associativity are in the class as well (RIGHT: `a op1 b op2 c` is one group of five nesting to
+the right, `goal_ternR`; LEFT: the chain `a op1 b op2 c op1 d op2 e` is ONE flat group, `goal_ternL`/`tern_parse`/`t_nest`;
+the second operator non-empty, not starting with a blank/operand character, prefix-incomparable with every first
+operator).  So all six level kinds of `infix_notation` (arity 1, 2, 3 × LEFT, RIGHT) are covered.
 
-STILL MISSING (oracle/correspondence only): LEFT-associative ternary levels, level parse actions, overlapping spellings, ill-formed
+STILL MISSING (oracle/correspondence only): level parse actions, overlapping spellings, ill-formed
 strings, packrat.
 -/
 namespace PP.Infix.Gen
@@ -112,6 +114,16 @@ theorem post_of_low {t : Table} {cs s : List Char} {e : Ex} {k : Nat} (hwf : WFG
   have := hall (k - 1 - e.lvl) (by omega)
   rwa [show e.lvl + (k - 1 - e.lvl) = k - 1 by omega] at this
 
+/-- a tree of a tighter level is a one-element ternary chain of level `k` -/
+theorem tchain_of_low {t : Table} {cs s : List Char} {e : Ex} {k : Nat} (hwf : WFG t cs e)
+    (hall : ∀ d, e.lvl + d ≤ t.levels.length → GoalG t cs s e (e.lvl + d)) (hlt : e.lvl < k)
+    (hkn : k ≤ t.levels.length) : TChainOK t cs s k (tHead k e) (tRest k e) := by
+  obtain ⟨h1, h2⟩ := t_low e hlt
+  rw [h1, h2]
+  refine ⟨⟨hwf, hlt, ?_⟩, by simp⟩
+  have := hall (k - 1 - e.lvl) (by omega)
+  rwa [show e.lvl + (k - 1 - e.lvl) = k - 1 by omega] at this
+
 section main2
 variable {t : Table} {cs : List Char} {re : Bool} (hT : ClassG t cs re) (s : List Char)
 include hT
@@ -139,6 +151,29 @@ theorem goal_post {k : Nat} {lv : Level} (hK : 1 ≤ k) (hlv : t.levels[k - 1]? 
   rw [hnest]
   exact post_parse hT s hK hlv ha hr hh hw q suf (by rw [hs, hrB, List.append_assoc]) hq hf a c loc hloc
 
+/-- a LEFT-associative ternary application (the whole chain it closes) at its own level: ONE flat group -/
+theorem goal_ternL {k : Nat} {lv : Level} (hK : 1 ≤ k) (hlv : t.levels[k - 1]? = some lv)
+    (ha : lv.arity = 3) (hr : lv.right = false) {ea eb ec : Ex} {w1 w2 : List Char}
+    (hch : TChainOK t cs s k (tHead k ea) (tRest k ea ++ [(w1, eb, w2, ec)])) :
+    GoalG t cs s (.tern k ea w1 eb w2 ec) k := by
+  intro q suf hs hq hf a c loc hloc
+  obtain ⟨x1, r, hxr⟩ : ∃ x1 r, tRest k ea ++ [(w1, eb, w2, ec)] = x1 :: r := by
+    cases tRest k ea with
+    | nil => exact ⟨_, _, rfl⟩
+    | cons y ys => exact ⟨_, _, rfl⟩
+  have hrB : renderB t (.tern k ea w1 eb w2 ec) = renderB t (tHead k ea) ++ tR t lv.op1 lv.op2 (x1 :: r) := by
+    have := t_renderB t k (.tern k ea w1 eb w2 ec)
+    simpa [tHead, tRest, opOf_eq hlv, op2Of_eq hlv, hxr] using this
+  have hnest : nest t (.tern k ea w1 eb w2 ec) = .g (nest t (tHead k ea) :: tN t lv.op1 lv.op2 (x1 :: r)) := by
+    rw [t_nest t k (by simp [rightOf, hlv, hr]), opOf_eq hlv, op2Of_eq hlv, hxr]
+  rw [hxr] at hch
+  have hl : q + (renderB t (.tern k ea w1 eb w2 ec)).length
+      = q + (renderB t (tHead k ea)).length + (tR t lv.op1 lv.op2 (x1 :: r)).length := by
+    rw [hrB, List.length_append, Nat.add_assoc]
+  rw [hl] at hf ⊢
+  rw [hnest]
+  exact tern_parse hT s hK hlv ha hr hch q suf (by rw [hs, hrB, List.append_assoc]) hq hf a c loc hloc
+
 /-- every level `k ≥ lvl e` parses the spelling of `e` to `nest e`; seen from a LEFT-associative binary level
     `k ≥ lvl e`, `e` is a chain of operands that level `k-1` parses; seen from a POSTFIX level `k ≥ lvl e`, `e` is an
     operand that level `k-1` parses followed by operators -/
@@ -147,16 +182,19 @@ theorem goal_all : ∀ e, WFG t cs e →
     (∀ k lv, 1 ≤ k → t.levels[k - 1]? = some lv → lv.arity = 2 → lv.right = false → e.lvl ≤ k →
       ChainOK t cs s k (Left.chainHead k e) (Left.chainRest k e)) ∧
     (∀ k lv, 1 ≤ k → t.levels[k - 1]? = some lv → lv.arity = 1 → lv.right = false → e.lvl ≤ k →
-      OperandOK t cs s k (pHead k e) ∧ ∀ w ∈ pRest k e, White t.white w) := by
+      OperandOK t cs s k (pHead k e) ∧ ∀ w ∈ pRest k e, White t.white w) ∧
+    (∀ k lv, 1 ≤ k → t.levels[k - 1]? = some lv → lv.arity = 3 → lv.right = false → e.lvl ≤ k →
+      TChainOK t cs s k (tHead k e) (tRest k e)) := by
   intro e
   induction e with
   | atom ws w =>
     intro hwf
     have p1 := lift_all hT s hwf (goal_atom hT s hwf)
-    refine ⟨p1, fun k lv hk hlv _ _ _ => ?_, fun k lv hk hlv _ _ _ => ?_⟩ <;>
+    refine ⟨p1, fun k lv hk hlv _ _ _ => ?_, fun k lv hk hlv _ _ _ => ?_, fun k lv hk hlv _ _ _ => ?_⟩ <;>
       have := (List.getElem?_eq_some_iff.mp hlv).1
     · exact chain_of_low hwf p1 (by simp only [Ex.lvl]; omega) (by omega)
     · exact post_of_low hwf p1 (by simp only [Ex.lvl]; omega) (by omega)
+    · exact tchain_of_low hwf p1 (by simp only [Ex.lvl]; omega) (by omega)
   | paren wl e wr ih =>
     intro hwf
     have p1 : ∀ d, (Ex.paren wl e wr).lvl + d ≤ t.levels.length → GoalG t cs s (.paren wl e wr) ((Ex.paren wl e wr).lvl + d) := by
@@ -164,10 +202,11 @@ theorem goal_all : ∀ e, WFG t cs e →
       have hle := lvl_le_of_WFG e hwf.2.2
       have := (ih hwf.2.2).1 (t.levels.length - e.lvl) (by omega)
       exact goal_paren hT s hwf (by simpa [Nat.add_sub_cancel' hle] using this)
-    refine ⟨p1, fun k lv hk hlv _ _ _ => ?_, fun k lv hk hlv _ _ _ => ?_⟩ <;>
+    refine ⟨p1, fun k lv hk hlv _ _ _ => ?_, fun k lv hk hlv _ _ _ => ?_, fun k lv hk hlv _ _ _ => ?_⟩ <;>
       have := (List.getElem?_eq_some_iff.mp hlv).1
     · exact chain_of_low hwf p1 (by simp only [Ex.lvl]; omega) (by omega)
     · exact post_of_low hwf p1 (by simp only [Ex.lvl]; omega) (by omega)
+    · exact tchain_of_low hwf p1 (by simp only [Ex.lvl]; omega) (by omega)
   | pre k wo e ih =>
     intro hwf
     obtain ⟨lv, hk, hlv, har, hrt, _, hwe, hle⟩ := id hwf
@@ -176,16 +215,17 @@ theorem goal_all : ∀ e, WFG t cs e →
       apply lift_all hT s hwf
       have := (ih hwe).1 (k - e.lvl) (by omega)
       exact goal_pre hT s hwf (by simpa [Nat.add_sub_cancel' hle] using this)
-    refine ⟨p1, fun k2 lv2 hk2 hlv2 ha2 hr2 hle2 => ?_, fun k2 lv2 hk2 hlv2 ha2 hr2 hle2 => ?_⟩ <;>
+    refine ⟨p1, fun k2 lv2 hk2 hlv2 ha2 hr2 hle2 => ?_, fun k2 lv2 hk2 hlv2 ha2 hr2 hle2 => ?_, fun k2 lv2 hk2 hlv2 ha2 hr2 hle2 => ?_⟩ <;>
       have := (List.getElem?_eq_some_iff.mp hlv2).1 <;> simp only [Ex.lvl] at hle2 <;>
       have hne : k ≠ k2 := (by rintro rfl; rw [hlv] at hlv2; cases hlv2; rw [hrt] at hr2; cases hr2)
     · exact chain_of_low hwf p1 (by simp only [Ex.lvl]; omega) (by omega)
     · exact post_of_low hwf p1 (by simp only [Ex.lvl]; omega) (by omega)
+    · exact tchain_of_low hwf p1 (by simp only [Ex.lvl]; omega) (by omega)
   | post k e wo ih =>
     intro hwf
     obtain ⟨lv, hk, hlv, har, hrt, hwo, hwe, hle⟩ := id hwf
     have hkn := (List.getElem?_eq_some_iff.mp hlv).1
-    have hp := (ih hwe).2.2 k lv hk hlv har hrt hle
+    have hp := (ih hwe).2.2.1 k lv hk hlv har hrt hle
     have hw : ∀ w ∈ pRest k e ++ [wo], White t.white w := by
       intro w hw
       rcases List.mem_append.mp hw with hw | hw
@@ -193,7 +233,7 @@ theorem goal_all : ∀ e, WFG t cs e →
       · simp only [List.mem_singleton] at hw; subst hw; exact hwo
     have p1 : ∀ d, (Ex.post k e wo).lvl + d ≤ t.levels.length → GoalG t cs s (.post k e wo) ((Ex.post k e wo).lvl + d) :=
       lift_all hT s hwf (goal_post hT s hk hlv har hrt hp.1 hw)
-    refine ⟨p1, fun k2 lv2 hk2 hlv2 ha2 hr2 hle2 => ?_, fun k2 lv2 hk2 hlv2 ha2 hr2 hle2 => ?_⟩ <;>
+    refine ⟨p1, fun k2 lv2 hk2 hlv2 ha2 hr2 hle2 => ?_, fun k2 lv2 hk2 hlv2 ha2 hr2 hle2 => ?_, fun k2 lv2 hk2 hlv2 ha2 hr2 hle2 => ?_⟩ <;>
       have := (List.getElem?_eq_some_iff.mp hlv2).1 <;> simp only [Ex.lvl] at hle2
     · have hne : k ≠ k2 := by rintro rfl; rw [hlv] at hlv2; cases hlv2; omega
       exact chain_of_low hwf p1 (by simp only [Ex.lvl]; omega) (by omega)
@@ -201,6 +241,8 @@ theorem goal_all : ∀ e, WFG t cs e →
       · subst hkk
         simpa [pHead, pRest] using And.intro hp.1 hw
       · exact post_of_low hwf p1 (by simp only [Ex.lvl]; omega) (by omega)
+    · have hne : k ≠ k2 := by rintro rfl; rw [hlv] at hlv2; cases hlv2; omega
+      exact tchain_of_low hwf p1 (by simp only [Ex.lvl]; omega) (by omega)
   | bin k a wo b iha ihb =>
     intro hwf
     obtain ⟨lv, hk, hlv, har, hwo, hwa, hwb, hcase⟩ := id hwf
@@ -213,11 +255,12 @@ theorem goal_all : ∀ e, WFG t cs e →
         have h2 := (ihb hwb).1 (k - b.lvl) (by omega)
         exact goal_binR hT s hwf hlv hr (by simpa [show a.lvl + (k - 1 - a.lvl) = k - 1 by omega] using h1)
           (by simpa [Nat.add_sub_cancel' hlb] using h2)
-      refine ⟨p1, fun k2 lv2 hk2 hlv2 ha2 hr2 hle2 => ?_, fun k2 lv2 hk2 hlv2 ha2 hr2 hle2 => ?_⟩ <;>
+      refine ⟨p1, fun k2 lv2 hk2 hlv2 ha2 hr2 hle2 => ?_, fun k2 lv2 hk2 hlv2 ha2 hr2 hle2 => ?_, fun k2 lv2 hk2 hlv2 ha2 hr2 hle2 => ?_⟩ <;>
         have := (List.getElem?_eq_some_iff.mp hlv2).1 <;> simp only [Ex.lvl] at hle2 <;>
         have hne : k ≠ k2 := (by rintro rfl; rw [hlv] at hlv2; cases hlv2; rw [hr] at hr2; cases hr2)
       · exact chain_of_low hwf p1 (by simp only [Ex.lvl]; omega) (by omega)
       · exact post_of_low hwf p1 (by simp only [Ex.lvl]; omega) (by omega)
+      · exact tchain_of_low hwf p1 (by simp only [Ex.lvl]; omega) (by omega)
     · -- LEFT-associative: the chain
       have hchain : ChainOK t cs s k (Left.chainHead k a) (Left.chainRest k a ++ [(wo, b)]) := by
         have hca := (iha hwa).2.1 k lv hk hlv har hr hla
@@ -231,7 +274,7 @@ theorem goal_all : ∀ e, WFG t cs e →
           exact ⟨hwo, hwb, hlb, hgb⟩
       have p1 : ∀ d, (Ex.bin k a wo b).lvl + d ≤ t.levels.length → GoalG t cs s (.bin k a wo b) ((Ex.bin k a wo b).lvl + d) :=
         lift_all hT s hwf (goal_binL hT s hk hlv har hr hchain)
-      refine ⟨p1, fun k2 lv2 hk2 hlv2 ha2 hr2 hle2 => ?_, fun k2 lv2 hk2 hlv2 ha2 hr2 hle2 => ?_⟩ <;>
+      refine ⟨p1, fun k2 lv2 hk2 hlv2 ha2 hr2 hle2 => ?_, fun k2 lv2 hk2 hlv2 ha2 hr2 hle2 => ?_, fun k2 lv2 hk2 hlv2 ha2 hr2 hle2 => ?_⟩ <;>
         have := (List.getElem?_eq_some_iff.mp hlv2).1 <;> simp only [Ex.lvl] at hle2
       · by_cases hkk : k = k2
         · subst hkk
@@ -239,36 +282,69 @@ theorem goal_all : ∀ e, WFG t cs e →
         · exact chain_of_low hwf p1 (by simp only [Ex.lvl]; omega) (by omega)
       · have hne : k ≠ k2 := by rintro rfl; rw [hlv] at hlv2; cases hlv2; omega
         exact post_of_low hwf p1 (by simp only [Ex.lvl]; omega) (by omega)
+      · have hne : k ≠ k2 := by rintro rfl; rw [hlv] at hlv2; cases hlv2; omega
+        exact tchain_of_low hwf p1 (by simp only [Ex.lvl]; omega) (by omega)
   | tern k a w1 b w2 c iha ihb ihc =>
     intro hwf
-    obtain ⟨lv, hk, hlv, har, hrt, _, _, hwa, hwb, hwc, hla, hlb, hlc⟩ := id hwf
+    obtain ⟨lv, hk, hlv, har, hw1, hw2, hwa, hwb, hwc, hcase⟩ := id hwf
     have hkn := (List.getElem?_eq_some_iff.mp hlv).1
-    have p1 : ∀ d, (Ex.tern k a w1 b w2 c).lvl + d ≤ t.levels.length →
-        GoalG t cs s (.tern k a w1 b w2 c) ((Ex.tern k a w1 b w2 c).lvl + d) := by
-      apply lift_all hT s hwf
-      have h1 := (iha hwa).1 (k - 1 - a.lvl) (by omega)
-      have h2 := (ihb hwb).1 (k - b.lvl) (by omega)
-      have h3 := (ihc hwc).1 (k - c.lvl) (by omega)
-      exact goal_ternR hT s hwf (by simpa [show a.lvl + (k - 1 - a.lvl) = k - 1 by omega] using h1)
-        (by simpa [Nat.add_sub_cancel' hlb] using h2) (by simpa [Nat.add_sub_cancel' hlc] using h3)
-    refine ⟨p1, fun k2 lv2 hk2 hlv2 ha2 hr2 hle2 => ?_, fun k2 lv2 hk2 hlv2 ha2 hr2 hle2 => ?_⟩ <;>
-      have := (List.getElem?_eq_some_iff.mp hlv2).1 <;> simp only [Ex.lvl] at hle2 <;>
-      have hne : k ≠ k2 := (by rintro rfl; rw [hlv] at hlv2; cases hlv2; omega)
-    · exact chain_of_low hwf p1 (by simp only [Ex.lvl]; omega) (by omega)
-    · exact post_of_low hwf p1 (by simp only [Ex.lvl]; omega) (by omega)
+    rcases hcase with ⟨hr, hla, hlb, hlc⟩ | ⟨hr, hla, hlb, hlc⟩
+    · -- RIGHT-associative
+      have p1 : ∀ d, (Ex.tern k a w1 b w2 c).lvl + d ≤ t.levels.length →
+          GoalG t cs s (.tern k a w1 b w2 c) ((Ex.tern k a w1 b w2 c).lvl + d) := by
+        apply lift_all hT s hwf
+        have h1 := (iha hwa).1 (k - 1 - a.lvl) (by omega)
+        have h2 := (ihb hwb).1 (k - b.lvl) (by omega)
+        have h3 := (ihc hwc).1 (k - c.lvl) (by omega)
+        exact goal_ternR hT s hwf hlv hr (by simpa [show a.lvl + (k - 1 - a.lvl) = k - 1 by omega] using h1)
+          (by simpa [Nat.add_sub_cancel' hlb] using h2) (by simpa [Nat.add_sub_cancel' hlc] using h3)
+      refine ⟨p1, fun k2 lv2 hk2 hlv2 ha2 hr2 hle2 => ?_, fun k2 lv2 hk2 hlv2 ha2 hr2 hle2 => ?_,
+          fun k2 lv2 hk2 hlv2 ha2 hr2 hle2 => ?_⟩ <;>
+        have := (List.getElem?_eq_some_iff.mp hlv2).1 <;> simp only [Ex.lvl] at hle2 <;>
+        have hne : k ≠ k2 := (by rintro rfl; rw [hlv] at hlv2; cases hlv2; rw [hr] at hr2; cases hr2)
+      · exact chain_of_low hwf p1 (by simp only [Ex.lvl]; omega) (by omega)
+      · exact post_of_low hwf p1 (by simp only [Ex.lvl]; omega) (by omega)
+      · exact tchain_of_low hwf p1 (by simp only [Ex.lvl]; omega) (by omega)
+    · -- LEFT-associative: the chain
+      have hchain : TChainOK t cs s k (tHead k a) (tRest k a ++ [(w1, b, w2, c)]) := by
+        have hca := (iha hwa).2.2.2 k lv hk hlv har hr hla
+        have hgb := (ihb hwb).1 (k - 1 - b.lvl) (by omega)
+        rw [show b.lvl + (k - 1 - b.lvl) = k - 1 by omega] at hgb
+        have hgc := (ihc hwc).1 (k - 1 - c.lvl) (by omega)
+        rw [show c.lvl + (k - 1 - c.lvl) = k - 1 by omega] at hgc
+        refine ⟨hca.1, fun x hx => ?_⟩
+        rcases List.mem_append.mp hx with hx | hx
+        · exact hca.2 x hx
+        · simp only [List.mem_singleton] at hx
+          subst hx
+          exact ⟨hw1, ⟨hwb, hlb, hgb⟩, hw2, ⟨hwc, hlc, hgc⟩⟩
+      have p1 : ∀ d, (Ex.tern k a w1 b w2 c).lvl + d ≤ t.levels.length →
+          GoalG t cs s (.tern k a w1 b w2 c) ((Ex.tern k a w1 b w2 c).lvl + d) :=
+        lift_all hT s hwf (goal_ternL hT s hk hlv har hr hchain)
+      refine ⟨p1, fun k2 lv2 hk2 hlv2 ha2 hr2 hle2 => ?_, fun k2 lv2 hk2 hlv2 ha2 hr2 hle2 => ?_,
+          fun k2 lv2 hk2 hlv2 ha2 hr2 hle2 => ?_⟩ <;>
+        have := (List.getElem?_eq_some_iff.mp hlv2).1 <;> simp only [Ex.lvl] at hle2
+      · have hne : k ≠ k2 := by rintro rfl; rw [hlv] at hlv2; cases hlv2; omega
+        exact chain_of_low hwf p1 (by simp only [Ex.lvl]; omega) (by omega)
+      · have hne : k ≠ k2 := by rintro rfl; rw [hlv] at hlv2; cases hlv2; omega
+        exact post_of_low hwf p1 (by simp only [Ex.lvl]; omega) (by omega)
+      · by_cases hkk : k = k2
+        · subst hkk
+          simpa [tHead, tRest] using hchain
+        · exact tchain_of_low hwf p1 (by simp only [Ex.lvl]; omega) (by omega)
 
 end main2
 
 
 
-/-- **infix_roundtrip (partial: LEFT/RIGHT-associative binary, prefix, POSTFIX and RIGHT-associative TERNARY levels, any number of them, in any
+/-- **infix_roundtrip (partial: LEFT/RIGHT-associative binary, prefix, POSTFIX and LEFT/RIGHT-associative TERNARY levels, any number of them, in any
     order; parentheses suppressed or kept).**
     For every table in class G and every tree in its normal form, of any size, written with any blanks before its
     tokens and any trailing blanks: `parse_string(.., parse_all=True)` of the model parser on `infixGrammar t` returns
     exactly the documented nesting `[nest t e]` — left-associative and postfix chains as ONE flat group each, a kept
     parenthesis as a group holding its token(s) and the inner result — for every fuel from some point on.
 
-    FULL STATEMENT (properties.jsonl) additionally covers LEFT-associative ternary levels, level parse actions and overlapping
+    FULL STATEMENT (properties.jsonl) additionally covers level parse actions and overlapping
     spellings; those stay with the oracle/correspondence legs. -/
 theorem _root_.PP.Infix.infix_roundtrip_general_partial {t : Table} {cs : List Char} {re : Bool} (hT : ClassG t cs re)
     (e : Ex) (hwf : WFG t cs e) (trail : List Char) (htr : White t.white trail) :
@@ -485,6 +561,59 @@ example : (match parseString (parseX (fbIds exTableH) (infixGrammar exTableH) (r
   decide +kernel
 
 example : showTok (nest exTableH exTreeH) = "[[1 + 2 ] ? [3 ? [0 ! ] : 1 ] : [[2 ? 3 : 0 ] + 1 ] ]".toList := by
+  decide +kernel
+
+/-! ### non-vacuity with a LEFT-associative ternary level (`?` `:` above prefix `-`), kept `(` -/
+
+def exTableK : Table :=
+  { white := [' ', '\t', '\n', '\r'],
+    base := mkNode [' ', '\t', '\n', '\r'] (.word ['0', '1', '2', '3'] ['0', '1', '2', '3'] 1 none false false true) false true,
+    lpar := ['('], rpar := [')'], lsup := false,
+    levels := [{ arity := 1, right := true, op1 := ['-'] }, { arity := 3, right := false, op1 := ['?'], op2 := [':'] },
+               { arity := 2, right := false, op1 := ['+'] }] }
+
+/-- `1 ? -2 : 3 ?0:(1?2:3) + 1?2 :3` -/
+def exTreeK : Ex :=
+  .bin 3
+    (.tern 2 (.tern 2 (.atom [] ['1']) [' '] (.pre 1 [' '] (.atom [] ['2'])) [' '] (.atom [' '] ['3'])) [' ']
+      (.atom [] ['0']) [] (.paren [] (.tern 2 (.atom [] ['1']) [] (.atom [] ['2']) [] (.atom [] ['3'])) []))
+    [' '] (.tern 2 (.atom [' '] ['1']) [] (.atom [] ['2']) [' '] (.atom [] ['3']))
+
+theorem exTableK_class : ClassG exTableK ['0', '1', '2', '3'] true where
+  base := rfl
+  csW := by decide
+  kinds := by decide
+  lparOk := by decide
+  rparOk := by decide
+  opOk := by decide
+  opsInc := by
+    intro i j lvi lvj hi hj hij
+    have hi3 : i < 3 := (List.getElem?_eq_some_iff.mp hi).1
+    have hj3 : j < 3 := (List.getElem?_eq_some_iff.mp hj).1
+    match i, j, hi3, hj3 with
+    | 0, 0, _, _ => exact absurd rfl hij
+    | 1, 1, _, _ => exact absurd rfl hij
+    | 2, 2, _, _ => exact absurd rfl hij
+    | 0, 1, _, _ | 0, 2, _, _ | 1, 0, _, _ | 1, 2, _, _ | 2, 0, _, _ | 2, 1, _, _ =>
+      simp [exTableK] at hi hj; subst hi; subst hj; decide
+  parInc := by decide
+  op2Ok := by decide
+  op2Inc := by decide
+
+theorem exTreeK_wf : WFG exTableK ['0', '1', '2', '3'] exTreeK := by
+  simp [exTreeK, WFG, exTableK, White, Ex.lvl]
+
+example := infix_roundtrip_general_partial exTableK_class exTreeK exTreeK_wf [' '] (by simp [White, exTableK])
+
+example : render exTableK exTreeK = "1 ? -2 : 3 ?0:(1?2:3) + 1?2 :3".toList := by decide
+
+example : (match parseString (parseX (fbIds exTableK) (infixGrammar exTableK) (render exTableK exTreeK) 80)
+      (infixGrammar exTableK) rootId exTableK.white (render exTableK exTreeK) true with
+    | .ok e ts => some (e, showToks ts)
+    | _ => none) = some (30, "[[1 ? [- 2 ] : 3 ? 0 : [( [1 ? 2 : 3 ] ] ] + [1 ? 2 : 3 ] ] ".toList) := by
+  decide +kernel
+
+example : showTok (nest exTableK exTreeK) = "[[1 ? [- 2 ] : 3 ? 0 : [( [1 ? 2 : 3 ] ] ] + [1 ? 2 : 3 ] ]".toList := by
   decide +kernel
 
 end PP.Infix.Gen
